@@ -49,8 +49,9 @@ def check_calls(ctx, clause="D-b"):
             # variants, or a direct-only strategy class), otherwise the other configuration crashes here
             def variant(name):
                 return "no_inverse" if name.endswith("_no_inverse") else ("inverse" if name.endswith("_inverse") or name.endswith("_inverse_paths") else None)
-            from .direction import DIRECT_ONLY_CLASSES
-            cv = variant(cs.func.name) or ("no_inverse" if cs.func.cls is not None and cs.func.cls.name in DIRECT_ONLY_CLASSES else None)
+            from .direction import DIRECT_ONLY_CLASSES, INVERSE_ONLY_CLASSES
+            cv = variant(cs.func.name) or ("no_inverse" if cs.func.cls is not None and cs.func.cls.name in DIRECT_ONLY_CLASSES else None) \
+                or ("inverse" if cs.func.cls is not None and cs.func.cls.name in INVERSE_ONLY_CLASSES else None)
             binding = {variant(t.name) for t, b in results if not b["errors"]}
             bad = not (cv is not None and binding == {cv})
         elif cs.kind in ("slot", "byname"):
